@@ -37,7 +37,7 @@ static int apply(DString *d, ref *r, opx o, char *why) {
 			else { size_t k = ln > sl ? sl : ln; d_string_append_c_array(d, s, k); r_ins(r, r->n, s, k); }
 			if (r->n != strlen(r->b)) return 3;     /* content now contains a NUL: later string-based operations are not defined on it */
 		} break;
-		case APPEND_PF: { d_string_append_printf(d, "%s|%d", sl > 64 ? "long" : s, 7); char t[128]; snprintf(t, sizeof t, "%s|%d", sl > 64 ? "long" : s, 7); r_ins(r, r->n, t, strlen(t)); } break;
+		case APPEND_PF: { d_string_append_printf(d, "%s|%d", s, 7); char *t = malloc(sl + 16); snprintf(t, sl + 16, "%s|%d", s, 7); r_ins(r, r->n, t, strlen(t)); free(t); } break;
 		case PREPEND: d_string_prepend(d, s); r_ins(r, 0, s, strlen(s)); break;
 		case INSERT: d_string_insert(d, pos, s); r_ins(r, pos, s, strlen(s)); break;
 		case INSERT_C: d_string_insert_c(d, pos, 'q'); r_ins(r, pos, "q", 1); break;
@@ -122,7 +122,7 @@ static int bfs(int maxd, double deadline_s, int only_start) {
 		if ((head & 255) == 0) { struct timespec t; clock_gettime(CLOCK_MONOTONIC, &t); if ((t.tv_sec - t0.tv_sec) > deadline_s) { complete = 0; break; } }
 		for (int op = 0; op < NOPS; op++) for (int pi = 0; pi < NP; pi++) for (int pk = 0; pk < 6; pk++) for (int lk = 0; lk < 6; lk++) {
 			if (!usepos(op) && pk) continue; if (!uselen(op) && lk) continue; if (!usepay(op) && pi) continue;
-			if (op == REPLACE && pi > 2) continue; if ((op == APPEND_C || op == APPEND_PF) && pi > 2) continue;
+			if (op == REPLACE && pi > 2) continue; if (op == APPEND_C && pi > 2) continue;
 			if (pi == NP - 1 && op != APPEND_ARR) continue;            /* the NUL-containing payload is for the binary append path only */
 			opx o = { op, pi, pk, lk };
 			PR->h = h; PR->last = o; PR->active = 1;
@@ -156,6 +156,37 @@ static int bfs(int maxd, double deadline_s, int only_start) {
 	for (int s = 0; s < 2 && nq > 3; s++) { size_t i = 1 + (nq - 2) * s / 2; printf("{\"t\":\"sample\","); print_hist(stdout, &Q[i], NULL); printf("}\n"); }
 	return 0;
 }
+/* length sweep: every payload length 0..SWEEP_MAX through every inserting operation, on an empty string and on strings that end
+   just below / at a capacity doubling; one operation per fresh string, compared with the model */
+#define SWEEP_MAX 4200
+static int sweep(void) {
+	static const size_t pre[] = { 0, 1, 1022, 1023, 1024 }; long n = 0, bad = 0;
+	char *pay = malloc(SWEEP_MAX + 2), *prefix = malloc(2048); char why[160];
+	for (size_t L = 0; L <= SWEEP_MAX; L++) for (int pk = 0; pk < 5; pk++) for (int op = 0; op < 8; op++) {
+		for (size_t j = 0; j < L; j++) pay[j] = "abxab"[j % 5]; pay[L] = 0;
+		for (size_t j = 0; j < pre[pk]; j++) prefix[j] = "01234567"[j % 8]; prefix[pre[pk]] = 0;
+		DString *d = d_string_new(prefix); ref r = { strdup(prefix), pre[pk] }; size_t mid = pre[pk] / 2;
+		PR->active = 2; PR->h.n = 0; PR->h.start = 0; PR->last.op = op; PR->last.pi = pk; PR->last.posk = L & 255; PR->last.lenk = L >> 8;
+		switch (op) {
+			case 0: d_string_append(d, pay); r_ins(&r, r.n, pay, L); break;
+			case 1: d_string_append_c_array(d, pay, L); r_ins(&r, r.n, pay, L); break;
+			case 2: d_string_append_printf(d, "%s", pay); r_ins(&r, r.n, pay, L); break;
+			case 3: d_string_append_printf(d, "%d%s", 7, pay); r_ins(&r, r.n, "7", 1); r_ins(&r, r.n, pay, L); break;
+			case 4: d_string_prepend(d, pay); r_ins(&r, 0, pay, L); break;
+			case 5: d_string_insert(d, mid, pay); r_ins(&r, mid, pay, L); break;
+			case 6: d_string_insert_c_array(d, mid, pay, L); r_ins(&r, mid, pay, L); break;
+			case 7: d_string_insert_printf(d, mid, "%s", pay); r_ins(&r, mid, pay, L); break;
+		}
+		n++;
+		if (!same(d, &r, why)) { if (bad++ < 20) { static const char *sn[] = { "append", "append_c_array", "append_printf", "append_printf", "prepend", "insert", "insert_c_array", "insert_printf" };
+			printf("{\"t\":\"viol\",\"sig\":\"dstring:%s:%s\",\"detail\":\"length sweep: %s\",\"start\":\"new(%lu bytes)\",\"history\":[\"%s(payload=%lu bytes, sweep op %d)\"]}\n", sn[op],
+				strstr(why, "length") ? "length" : strstr(why, "content") ? "content" : strstr(why, "NUL") ? "termination" : strstr(why, "capacity") ? "capacity" : "result", why, (unsigned long) pre[pk], sn[op], (unsigned long) L, op); } }
+		d_string_free(d, true); free(r.b);
+	}
+	PR->active = 0;
+	printf("{\"t\":\"sweep\",\"cases\":%ld,\"violations\":%ld,\"max_payload\":%d}\n", n, bad, SWEEP_MAX);
+	return 0;
+}
 const char *__asan_default_options(void) { return "detect_leaks=0:allocator_may_return_null=1"; }
 const char *__ubsan_default_options(void) { return "print_stacktrace=1:halt_on_error=1"; }
 
@@ -167,7 +198,7 @@ int main(int argc, char **argv) {
 	PAY[NP - 1][1] = 0;     /* "a\0x" with explicit length 3 */
 	static char *longs[NSTART]; size_t ll[NSTART] = { 0, 0, 0, 1022, 1023, 1024, 1025, 2048, 2049, 4096 };
 	for (int k = 3; k < NSTART; k++) { longs[k] = malloc(ll[k] + 1); for (size_t q = 0; q < ll[k]; q++) longs[k][q] = "abxab"[q % 5]; longs[k][ll[k]] = 0; STARTS[k] = longs[k]; }
-	progress *PRS = mmap(NULL, sizeof(progress) * NSTART, PROT_READ | PROT_WRITE, MAP_SHARED | MAP_ANONYMOUS, -1, 0);
+	progress *PRS = mmap(NULL, sizeof(progress) * (NSTART + 1), PROT_READ | PROT_WRITE, MAP_SHARED | MAP_ANONYMOUS, -1, 0);
 	pid_t pids[NSTART]; char outf[NSTART][64];
 	fflush(stdout);
 	for (int k = 0; k < NSTART; k++) {
@@ -176,6 +207,9 @@ int main(int argc, char **argv) {
 		if (pids[k] == 0) { PR = &PRS[k]; if (!freopen(outf[k], "w", stdout)) _exit(3); int rc = bfs(maxd, deadline, k); fflush(stdout); _exit(rc); }
 	}
 	int worst = 0;
+	{ pid_t sp = fork(); if (sp == 0) { PR = &PRS[NSTART]; int rc = sweep(); fflush(stdout); _exit(rc); }
+	  int st; waitpid(sp, &st, 0);
+	  if (!(WIFEXITED(st) && WEXITSTATUS(st) == 0)) { progress *q = &PRS[NSTART]; printf("{\"t\":\"crash\",\"how\":\"%s %d\",\"start\":\"sweep prefix kind %d\",\"history\":[\"sweep op %d payload=%d bytes\"],\"op\":\"sweep-%d\"}\n", WIFSIGNALED(st) ? "signal" : "exit", WIFSIGNALED(st) ? WTERMSIG(st) : WEXITSTATUS(st), q->last.pi, q->last.op, q->last.posk + 256 * q->last.lenk, q->last.op); } }
 	for (int k = 0; k < NSTART; k++) {
 		int st; waitpid(pids[k], &st, 0);
 		FILE *f = fopen(outf[k], "r"); char buf[8192]; size_t n; if (f) { while ((n = fread(buf, 1, sizeof buf, f)) > 0) fwrite(buf, 1, n, stdout); fclose(f); unlink(outf[k]); }
